@@ -634,6 +634,12 @@ def finish_recipe(record, run0, known):
                 run0.violations.append(Violation('C18', 'config_specific_violation', (v.prop, v.clause, c['moles_storage_unit'], c['volume_storage_unit']),
                                                  v.event, f"only under {tag}: {v.prop}.{v.clause}: {v.detail}"))
                 break
+        # values are compared only while no amount of any snapshot sits within 1e4 rounding steps (coarsest replica) of zero -
+        # the same floor that stops the comparison of bench scripts: a trace (nanomoles next to a mass quantum of 1e-10 g)
+        # that a later dilute or create_solution_from divides by is resolved differently by every configuration
+        if not floors_ok(pre, run0) or not floors_ok(pre, run):
+            run0.stats['recipe_state_below_floor_unjudged'] += 1
+            continue
         # bake results in user units
         cmpr = Comparator(cfgs, len(calls))
         cmpr.peak = dict(run0.peak)
